@@ -159,6 +159,9 @@ def gen_plan(rng, tier, idx, opts):
             # the stream-variation drivers of the library run their own history of solve / clear / set_precoders /
             # set_receive_filters on the SAME solver object
             ops.append({"op": "stream_search", "how": rng.choice(["greedy", "greedy", "brute"]), "P": gen_P(rng, K, extreme)})
+        elif r < 0.845:
+            # ANOTHER solver object is built on the same channel object and solved in between
+            ops.append({"op": "other_solver", "kind": rng.choice(["altmin", "minleak", "maxsinr", "mmse"]), "P": gen_P(rng, K, extreme), "seed": s()})
         elif r < 0.855 and kind != "closed":
             ops.append({"op": "set_max_iter", "v": rng.choice([1, 1, 2, 3, 6])})      # iteration budget changed between two solves
         elif r < 0.87:
@@ -364,6 +367,19 @@ def execute(plan):
                         bump(res["faults"], "rejected-setter")
                     log.add(o, op["P"])
                     # falls through to check_relations: everything must still hold for the power set last
+                elif o == "other_solver":
+                    if op["kind"] in ("mmse", "maxsinr") and cur["noise"] is None:
+                        continue
+                    s2 = SOLVERS[op["kind"]](ch)
+                    seed_all_rs(s2, op["seed"] % (1 << 31))
+                    s2.max_iterations = 2
+                    try:
+                        s2.solve(np.array(Ns), py_P(op["P"]))
+                    except Exception:       # noqa: BLE001  (the other solver is not under test here)
+                        pass
+                    bump(res["probes"], "another_solver_on_the_same_channel")
+                    log.add(o, op["kind"])
+                    # falls through to check_relations on the solver under test
                 elif o == "set_max_iter":
                     solver.max_iterations = int(op["v"])
                     log.add(o, op["v"])
